@@ -1,18 +1,13 @@
 //! History execution against the real contract code (`ats_smart_contract`),
 //! with a token ledger, chain-like rollback, and assert evaluation.
 
-use crate::oracles::{self, OracleResult, OracleSel, StepCtx};
-use ats_smart_contract::version_info::VersionInfoV1 as VersionRecord;
-#[allow(deprecated)]
-use ats_smart_contract::bid_order::{BidOrderV2, BIDS_V2};
-use ats_smart_contract::ask_order::{AskOrderClass, AskOrderStatus, AskOrderV1, ASKS_V1};
-use ats_smart_contract::bid_order::{BidOrderV3, BIDS_V3};
-use ats_smart_contract::contract::{execute, instantiate, migrate, query};
-use ats_smart_contract::contract_info::{get_contract_info, ContractInfoV3};
-use ats_smart_contract::msg::{ExecuteMsg, InstantiateMsg, MigrateMsg, QueryMsg};
-use ats_smart_contract::version_info::{
-    get_version_info, set_version_info, VersionInfoV1, CRATE_NAME,
+use crate::format::{
+    self, AskRec, BidRec, ConfigRec, LegacyBidRec, StoredBid, VersionRec, NS_ASK, NS_BID,
 };
+use crate::oracles::{self, OracleResult, OracleSel, StepCtx};
+use ats_smart_contract::contract::{execute, instantiate, migrate, query};
+use ats_smart_contract::msg::{ExecuteMsg, InstantiateMsg, MigrateMsg, QueryMsg};
+use ats_smart_contract::version_info::CRATE_NAME;
 use cosmwasm_std::testing::{mock_env, MockApi, MockStorage, MOCK_CONTRACT_ADDR};
 use cosmwasm_std::{
     from_slice, to_binary, Addr, BankMsg, Binary, Coin, ContractResult, CosmosMsg, Deps, DepsMut,
@@ -141,8 +136,7 @@ pub fn clone_storage(s: &MockStorage) -> MockStorage {
 /// Raw scan of a cw-storage-plus `Map` namespace (single-component keys):
 /// storage key = be16(len(ns)) ++ ns ++ key.
 pub fn scan_namespace(storage: &dyn Storage, ns: &str) -> Vec<(Vec<u8>, Vec<u8>)> {
-    let mut prefix = (ns.len() as u16).to_be_bytes().to_vec();
-    prefix.extend_from_slice(ns.as_bytes());
+    let prefix = format::map_prefix(ns);
     let mut end = prefix.clone();
     // namespaces are ascii, so the last byte never overflows
     if let Some(b) = end.last_mut() {
@@ -164,8 +158,8 @@ pub struct Snap {
 
 pub const ASK_PREFIX: &[u8] = b"\x00\x03ask";
 pub const BID_PREFIX: &[u8] = b"\x00\x03bid";
-pub const CONTRACT_INFO_KEY: &[u8] = b"contract_info";
-pub const VERSION_INFO_KEY: &[u8] = b"version_info";
+pub const CONTRACT_INFO_KEY: &[u8] = format::ITEM_CONTRACT_INFO.as_bytes();
+pub const VERSION_INFO_KEY: &[u8] = format::ITEM_VERSION_INFO.as_bytes();
 
 impl Snap {
     pub fn take(storage: &dyn Storage) -> Snap {
@@ -203,18 +197,19 @@ impl Snap {
         k.extend_from_slice(id.as_bytes());
         self.get(&k)
     }
-    pub fn ask(&self, id: &str) -> Option<AskOrderV1> {
-        self.ask_raw(id).and_then(|b| from_slice(b).ok())
+    /// the golden-shape ask stored under `id`, read with the hand-written reader
+    pub fn ask(&self, id: &str) -> Option<AskRec> {
+        self.ask_raw(id).and_then(|b| format::ask_of(b).ok())
     }
-    /// the current-format bid stored under `id`, if any
-    pub fn bid(&self, id: &str) -> Option<BidOrderV3> {
-        self.bid_raw(id).and_then(|b| from_slice(b).ok())
+    /// the golden current-format bid stored under `id`, if any
+    pub fn bid(&self, id: &str) -> Option<BidRec> {
+        self.bid_raw(id).and_then(format::current_bid_of)
     }
-    pub fn contract_info(&self) -> Option<ContractInfoV3> {
-        self.get(CONTRACT_INFO_KEY).and_then(|b| from_slice(b).ok())
+    pub fn contract_info(&self) -> Option<ConfigRec> {
+        self.get(CONTRACT_INFO_KEY).and_then(|b| format::config_of(b).ok())
     }
-    pub fn version(&self) -> Option<VersionRecord> {
-        self.get(VERSION_INFO_KEY).and_then(|b| from_slice(b).ok())
+    pub fn version(&self) -> Option<VersionRec> {
+        self.get(VERSION_INFO_KEY).and_then(|b| format::version_of(b).ok())
     }
     /// every storage entry except the listed keys / prefixes is the same in both snapshots
     pub fn same_except(&self, other: &Snap, except: &[&[u8]]) -> bool {
@@ -336,18 +331,20 @@ pub fn parse_msg(m: &CosmosMsg) -> Msg {
 
 #[derive(Clone, Debug)]
 pub enum AskEntry {
-    V1(AskOrderV1),
+    /// a record in the golden ask format
+    V1(AskRec),
     Raw { key: String, value: Value },
 }
 
-#[allow(deprecated)]
 #[derive(Clone, Debug)]
 pub enum BidEntry {
-    V3(BidOrderV3),
+    /// a record in the golden current format
+    V3(BidRec),
+    /// a record in the golden legacy (event log) format
     V2 {
         key: String,
         value: Value,
-        order: BidOrderV2,
+        order: LegacyBidRec,
     },
     Unknown {
         key: String,
@@ -355,6 +352,8 @@ pub enum BidEntry {
     },
 }
 
+/// The order book as the hand-written reader (`format.rs`) sees the raw storage: records are
+/// classified by shape and read field by field; no type of the contract is involved.
 #[derive(Clone, Debug, Default)]
 pub struct Book {
     pub asks: Vec<AskEntry>,
@@ -363,6 +362,9 @@ pub struct Book {
     /// let drift from the order's own `id` field)
     pub ask_keys: Vec<String>,
     pub bid_keys: Vec<String>,
+    /// the stored JSON, parallel to `asks` / `bids`
+    pub ask_values: Vec<Value>,
+    pub bid_values: Vec<Value>,
 }
 
 fn raw_value(bytes: &[u8]) -> Value {
@@ -371,34 +373,35 @@ fn raw_value(bytes: &[u8]) -> Value {
 }
 
 impl Book {
-    #[allow(deprecated)]
     pub fn read(storage: &dyn Storage) -> Book {
         let mut book = Book::default();
-        for (k, v) in scan_namespace(storage, "ask") {
-            book.ask_keys.push(String::from_utf8_lossy(&k).to_string());
-            match from_slice::<AskOrderV1>(&v) {
+        for (k, v) in scan_namespace(storage, NS_ASK) {
+            let key = String::from_utf8_lossy(&k).to_string();
+            book.ask_keys.push(key.clone());
+            book.ask_values.push(raw_value(&v));
+            match format::ask_of(&v) {
                 Ok(a) => book.asks.push(AskEntry::V1(a)),
                 Err(_) => book.asks.push(AskEntry::Raw {
-                    key: String::from_utf8_lossy(&k).to_string(),
+                    key,
                     value: raw_value(&v),
                 }),
             }
         }
-        for (k, v) in scan_namespace(storage, "bid") {
-            book.bid_keys.push(String::from_utf8_lossy(&k).to_string());
-            if let Ok(b) = from_slice::<BidOrderV3>(&v) {
-                book.bids.push(BidEntry::V3(b));
-            } else if let Ok(b) = from_slice::<BidOrderV2>(&v) {
-                book.bids.push(BidEntry::V2 {
-                    key: String::from_utf8_lossy(&k).to_string(),
+        for (k, v) in scan_namespace(storage, NS_BID) {
+            let key = String::from_utf8_lossy(&k).to_string();
+            book.bid_keys.push(key.clone());
+            book.bid_values.push(raw_value(&v));
+            match format::classify_bid(&v) {
+                StoredBid::Current(b) => book.bids.push(BidEntry::V3(b)),
+                StoredBid::Legacy(b) => book.bids.push(BidEntry::V2 {
+                    key,
                     value: raw_value(&v),
                     order: b,
-                });
-            } else {
-                book.bids.push(BidEntry::Unknown {
-                    key: String::from_utf8_lossy(&k).to_string(),
+                }),
+                StoredBid::Malformed { .. } => book.bids.push(BidEntry::Unknown {
+                    key,
                     value: raw_value(&v),
-                });
+                }),
             }
         }
         book
@@ -408,8 +411,9 @@ impl Book {
         let asks: Vec<Value> = self
             .asks
             .iter()
-            .map(|a| match a {
-                AskEntry::V1(a) => serde_json::to_value(a).unwrap_or(Value::Null),
+            .zip(self.ask_values.iter())
+            .map(|(a, raw)| match a {
+                AskEntry::V1(_) => raw.clone(),
                 AskEntry::Raw { key, value } => {
                     json!({"raw": value, "format": "unknown", "key": key})
                 }
@@ -418,8 +422,9 @@ impl Book {
         let bids: Vec<Value> = self
             .bids
             .iter()
-            .map(|b| match b {
-                BidEntry::V3(b) => serde_json::to_value(b).unwrap_or(Value::Null),
+            .zip(self.bid_values.iter())
+            .map(|(b, raw)| match b {
+                BidEntry::V3(_) => raw.clone(),
                 BidEntry::V2 { key, value, .. } => {
                     json!({"raw": value, "format": "v2", "key": key})
                 }
@@ -431,7 +436,7 @@ impl Book {
         json!({"asks": asks, "bids": bids})
     }
 
-    pub fn v1_asks(&self) -> impl Iterator<Item = &AskOrderV1> {
+    pub fn v1_asks(&self) -> impl Iterator<Item = &AskRec> {
         self.asks.iter().filter_map(|a| match a {
             AskEntry::V1(a) => Some(a),
             _ => None,
@@ -439,7 +444,7 @@ impl Book {
     }
 
     /// current-format orders as a requester sees them: named by their storage key
-    pub fn v1_asks_by_key(&self) -> Vec<AskOrderV1> {
+    pub fn v1_asks_by_key(&self) -> Vec<AskRec> {
         self.asks
             .iter()
             .zip(self.ask_keys.iter())
@@ -454,7 +459,7 @@ impl Book {
             .collect()
     }
 
-    pub fn v3_bids_by_key(&self) -> Vec<BidOrderV3> {
+    pub fn v3_bids_by_key(&self) -> Vec<BidRec> {
         self.bids
             .iter()
             .zip(self.bid_keys.iter())
@@ -469,7 +474,7 @@ impl Book {
             .collect()
     }
 
-    pub fn v3_bids(&self) -> impl Iterator<Item = &BidOrderV3> {
+    pub fn v3_bids(&self) -> impl Iterator<Item = &BidRec> {
         self.bids.iter().filter_map(|b| match b {
             BidEntry::V3(b) => Some(b),
             _ => None,
@@ -667,8 +672,19 @@ impl World {
         Book::read(&self.deps.storage)
     }
 
-    pub fn contract_info(&self) -> Option<ContractInfoV3> {
-        get_contract_info(&self.deps.storage).ok()
+    /// the stored configuration, read from the raw item with the hand-written reader
+    pub fn contract_info(&self) -> Option<ConfigRec> {
+        self.deps
+            .storage
+            .get(CONTRACT_INFO_KEY)
+            .and_then(|b| format::config_of(&b).ok())
+    }
+
+    pub fn version_info(&self) -> Option<VersionRec> {
+        self.deps
+            .storage
+            .get(VERSION_INFO_KEY)
+            .and_then(|b| format::version_of(&b).ok())
     }
 
     /// Runs `execute` on an arbitrary storage (used with clones by the liveness oracle).
@@ -720,14 +736,17 @@ impl World {
     fn snapshot(&self, out: &mut StepOutcome) {
         out.ledger = self.ledger.clone();
         out.book = self.book();
-        out.contract_info = self
-            .contract_info()
-            .and_then(|c| serde_json::to_value(c).ok())
-            .unwrap_or(Value::Null);
-        out.version_info = get_version_info(&self.deps.storage)
-            .ok()
-            .and_then(|c| serde_json::to_value(c).ok())
-            .unwrap_or(Value::Null);
+        // the stored records as they are (raw JSON), not through a type of the contract
+        let raw_item = |key: &[u8]| -> Value {
+            self.deps
+                .storage
+                .get(key)
+                .and_then(|b| serde_json::from_slice::<Value>(&b).ok())
+                .unwrap_or(Value::Null)
+        };
+        out.contract_info = raw_item(CONTRACT_INFO_KEY);
+        out.version_info = raw_item(VERSION_INFO_KEY);
+        out.snap = Snap::take(&self.deps.storage);
     }
 
     fn run_oracles(
@@ -741,7 +760,7 @@ impl World {
         if matches!(sel, OracleSel::Nothing) {
             return;
         }
-        let post = Snap::take(&self.deps.storage);
+        let post = out.snap.clone();
         let ctx = StepCtx {
             kind: &out.kind,
             exec_kind: out.exec_kind.as_deref(),
@@ -1001,19 +1020,19 @@ impl World {
             let mut out = StepOutcome::new(index, "set_version");
             match v.as_str() {
                 Some(version) => {
-                    let definition = get_version_info(&self.deps.storage)
+                    // raw write of the golden version record; the definition stays what it was
+                    let definition = self
+                        .version_info()
                         .map(|vi| vi.definition)
-                        .unwrap_or_else(|_| CRATE_NAME.to_string());
-                    match set_version_info(
-                        &mut self.deps.storage,
-                        &VersionInfoV1 {
-                            definition,
-                            version: version.to_string(),
-                        },
-                    ) {
-                        Ok(()) => out.ok = true,
-                        Err(e) => out.error = Some(e.to_string()),
-                    }
+                        .unwrap_or_else(|| CRATE_NAME.to_string());
+                    let rec = VersionRec {
+                        definition,
+                        version: version.to_string(),
+                    };
+                    self.deps
+                        .storage
+                        .set(VERSION_INFO_KEY, &format::bytes_of(&format::version_value(&rec)));
+                    out.ok = true;
                 }
                 None => out.error = Some("set_version needs a string".into()),
             }
@@ -1024,19 +1043,21 @@ impl World {
             return Ok(out);
         }
 
+        // Direct writes of orders: the JSON is validated against the golden shape of
+        // `format.rs` (not parsed by a type of the contract) and stored exactly as given under
+        // the raw storage key of its `id`.
         if let Some(v) = obj.get("put_bid_v2") {
             let mut out = StepOutcome::new(index, "put_bid_v2");
-            match parse_contract_json::<BidOrderV2>(v) {
-                Ok(b) => match BIDS_V2.save(&mut self.deps.storage, b.id.as_bytes(), &b) {
-                    Ok(()) => {
-                        out.ok = true;
-                        if credit {
-                            let v3 = legacy_as_current(&b);
-                            self.credit_bid(&v3);
-                        }
+            match format::read_legacy_bid(v) {
+                Ok(b) => {
+                    self.deps
+                        .storage
+                        .set(&format::map_key(NS_BID, b.id.as_bytes()), &format::bytes_of(v));
+                    out.ok = true;
+                    if credit {
+                        self.credit_bid(&b.as_current_saturating());
                     }
-                    Err(e) => out.error = Some(e.to_string()),
-                },
+                }
                 Err(e) => out.error = Some(format!("malformed order: {e}")),
             }
             self.snapshot(&mut out);
@@ -1048,16 +1069,16 @@ impl World {
 
         if let Some(v) = obj.get("put_bid") {
             let mut out = StepOutcome::new(index, "put_bid");
-            match parse_contract_json::<BidOrderV3>(v) {
-                Ok(b) => match BIDS_V3.save(&mut self.deps.storage, b.id.as_bytes(), &b) {
-                    Ok(()) => {
-                        out.ok = true;
-                        if credit {
-                            self.credit_bid(&b);
-                        }
+            match format::read_bid(v) {
+                Ok(b) => {
+                    self.deps
+                        .storage
+                        .set(&format::map_key(NS_BID, b.id.as_bytes()), &format::bytes_of(v));
+                    out.ok = true;
+                    if credit {
+                        self.credit_bid(&b);
                     }
-                    Err(e) => out.error = Some(e.to_string()),
-                },
+                }
                 Err(e) => out.error = Some(format!("malformed order: {e}")),
             }
             self.snapshot(&mut out);
@@ -1069,39 +1090,16 @@ impl World {
 
         if let Some(v) = obj.get("put_ask") {
             let mut out = StepOutcome::new(index, "put_ask");
-            match parse_contract_json::<AskOrderV1>(v) {
-                Ok(a) => match ASKS_V1.save(&mut self.deps.storage, a.id.as_bytes(), &a) {
-                    Ok(()) => {
-                        out.ok = true;
-                        if credit {
-                            let contract = self.contract.clone();
-                            ledger_move(
-                                &mut self.ledger,
-                                a.owner.as_str(),
-                                &contract,
-                                &a.base,
-                                a.size.u128(),
-                            );
-                            if let AskOrderClass::Convertible {
-                                status:
-                                    AskOrderStatus::Ready {
-                                        approver,
-                                        converted_base,
-                                    },
-                            } = &a.class
-                            {
-                                ledger_move(
-                                    &mut self.ledger,
-                                    approver.as_str(),
-                                    &contract,
-                                    &converted_base.denom,
-                                    converted_base.amount.u128(),
-                                );
-                            }
-                        }
+            match format::read_ask(v) {
+                Ok(a) => {
+                    self.deps
+                        .storage
+                        .set(&format::map_key(NS_ASK, a.id.as_bytes()), &format::bytes_of(v));
+                    out.ok = true;
+                    if credit {
+                        self.credit_ask(&a);
                     }
-                    Err(e) => out.error = Some(e.to_string()),
-                },
+                }
                 Err(e) => out.error = Some(format!("malformed order: {e}")),
             }
             self.snapshot(&mut out);
@@ -1111,18 +1109,70 @@ impl World {
             return Ok(out);
         }
 
+        // put_raw {namespace, key?, value | text, credit?}: any storage entry, no validation.
+        // With `key` the entry of the Map namespace (be16(len) ++ namespace ++ key), without it
+        // the Item `namespace`.  `value` is stored as compact JSON, `text` verbatim.  Nothing is
+        // credited unless "credit": true and the value is a golden ask / bid.
+        if let Some(v) = obj.get("put_raw") {
+            let mut out = StepOutcome::new(index, "put_raw");
+            let ns = v.get("namespace").and_then(|n| n.as_str());
+            let key = match v.get("key") {
+                None | Some(Value::Null) => Ok(None),
+                Some(Value::String(k)) => Ok(Some(k.clone())),
+                Some(_) => Err("put_raw.key must be a string"),
+            };
+            let bytes = match (v.get("value"), v.get("text")) {
+                (Some(val), None) => Ok(format::bytes_of(val)),
+                (None, Some(Value::String(t))) => Ok(t.as_bytes().to_vec()),
+                _ => Err("put_raw needs exactly one of \"value\" (JSON) and \"text\" (string stored verbatim)"),
+            };
+            match (ns, key, bytes) {
+                (Some(ns), Ok(key), Ok(bytes)) => {
+                    let k = match &key {
+                        Some(k) => format::map_key(ns, k.as_bytes()),
+                        None => format::item_key(ns),
+                    };
+                    self.deps.storage.set(&k, &bytes);
+                    out.ok = true;
+                    let credit_raw = obj.get("credit").and_then(|c| c.as_bool()).unwrap_or(false)
+                        || v.get("credit").and_then(|c| c.as_bool()).unwrap_or(false);
+                    if credit_raw && key.is_some() {
+                        if ns == NS_ASK {
+                            if let Ok(a) = format::ask_of(&bytes) {
+                                self.credit_ask(&a);
+                            }
+                        } else if ns == NS_BID {
+                            match format::classify_bid(&bytes) {
+                                StoredBid::Current(b) => self.credit_bid(&b),
+                                StoredBid::Legacy(b) => self.credit_bid(&b.as_current_saturating()),
+                                StoredBid::Malformed { .. } => {}
+                            }
+                        }
+                    }
+                }
+                (None, _, _) => out.error = Some("put_raw needs a \"namespace\" string".into()),
+                (_, Err(e), _) | (_, _, Err(e)) => out.error = Some(e.to_string()),
+            }
+            self.snapshot(&mut out);
+            if out.ok {
+                self.run_oracles(&mut out, sel, &pre, &Request::None, &[]);
+            }
+            return Ok(out);
+        }
+
         Err(format!(
-            "step {index}: unknown step kind (keys: {:?}); expected one of execute, query, migrate, set_version, put_bid_v2, put_ask, put_bid",
+            "step {index}: unknown step kind (keys: {:?}); expected one of execute, query, migrate, set_version, put_bid_v2, put_ask, put_bid, put_raw",
             obj.keys().collect::<Vec<_>>()
         ))
     }
 
-    /// Direct writes credit the contract with the escrow the order implies, taken from its owner.
-    fn credit_bid(&mut self, b: &BidOrderV3) {
+    /// Direct writes credit the contract with the escrow the order implies, taken from its owner
+    /// (amounts read from the JSON with the hand-written reader).
+    fn credit_bid(&mut self, b: &BidRec) {
         let contract = self.contract.clone();
-        let rem_quote = b.quote.amount.u128().saturating_sub(b.accumulated_quote.u128());
+        let rem_quote = b.quote.amount.saturating_sub(b.accumulated_quote);
         let rem_fee = match &b.fee {
-            Some(f) => f.amount.u128().saturating_sub(b.accumulated_fee.u128()),
+            Some(f) => f.amount.saturating_sub(b.accumulated_fee),
             None => 0,
         };
         ledger_move(
@@ -1133,38 +1183,19 @@ impl World {
             rem_quote.saturating_add(rem_fee),
         );
     }
-}
 
-/// The current-format reading of a legacy bid (accumulated amounts = sums over its event log),
-/// computed here and not with the contract's own conversion.
-#[allow(deprecated)]
-pub fn legacy_as_current(o: &BidOrderV2) -> BidOrderV3 {
-    use ats_smart_contract::common::Action;
-    let (mut sb, mut sq, mut sf) = (0u128, 0u128, 0u128);
-    let amt = |c: &Option<Coin>| c.as_ref().map(|c| c.amount.u128()).unwrap_or(0);
-    for e in &o.events {
-        match &e.action {
-            Action::Fill { base, fee, quote, .. } | Action::Reject { base, fee, quote } => {
-                sb = sb.saturating_add(base.amount.u128());
-                sq = sq.saturating_add(quote.amount.u128());
-                sf = sf.saturating_add(amt(fee));
-            }
-            Action::Refund { fee, quote } => {
-                sq = sq.saturating_add(quote.amount.u128());
-                sf = sf.saturating_add(amt(fee));
-            }
+    fn credit_ask(&mut self, a: &AskRec) {
+        let contract = self.contract.clone();
+        ledger_move(&mut self.ledger, a.owner.as_str(), &contract, &a.base, a.size);
+        if let Some((approver, converted_base)) = a.ready() {
+            ledger_move(
+                &mut self.ledger,
+                approver,
+                &contract,
+                &converted_base.denom,
+                converted_base.amount,
+            );
         }
-    }
-    BidOrderV3 {
-        base: o.base.clone(),
-        accumulated_base: sb.into(),
-        accumulated_quote: sq.into(),
-        accumulated_fee: sf.into(),
-        fee: o.fee.clone(),
-        id: o.id.clone(),
-        owner: o.owner.clone(),
-        price: o.price.clone(),
-        quote: o.quote.clone(),
     }
 }
 
@@ -1231,6 +1262,8 @@ pub struct StepOutcome {
     pub book: Book,
     pub contract_info: Value,
     pub version_info: Value,
+    /// complete raw copy of the storage after the step
+    pub snap: Snap,
     pub oracles: Option<BTreeMap<String, OracleResult>>,
 }
 
@@ -1251,6 +1284,7 @@ impl StepOutcome {
             book: Book::default(),
             contract_info: Value::Null,
             version_info: Value::Null,
+            snap: Snap::default(),
             oracles: None,
         }
     }
@@ -1520,6 +1554,53 @@ pub fn eval_asserts(
                 };
                 let want = kind == "order_present";
                 (present == want, format!("{side} {id} present={present}"))
+            }
+            // the answer of a `query` step is exactly this JSON (strings and numbers as written)
+            "query_eq" => {
+                let s = step_at("step")?;
+                let want = a
+                    .get("value")
+                    .ok_or_else(|| format!("query_eq needs \"value\": {a}"))?;
+                match &s.query_result {
+                    Some(got) => (
+                        s.ok && got == want,
+                        if got == want {
+                            format!("query of step {} answered as expected", s.index)
+                        } else {
+                            format!("query of step {} answered {got}, expected {want}", s.index)
+                        },
+                    ),
+                    None => (
+                        false,
+                        format!("step {} gave no query answer (ok={} error={:?})", s.index, s.ok, s.error),
+                    ),
+                }
+            }
+            // raw storage after a step: the entry (namespace[, key]) holds exactly this JSON / is absent
+            "stored_eq" | "stored_absent" => {
+                let s = step_at("after_step")?;
+                let ns = get_str(a, "namespace")?;
+                let k = match a.get("key") {
+                    None | Some(Value::Null) => format::item_key(ns),
+                    Some(Value::String(k)) => format::map_key(ns, k.as_bytes()),
+                    Some(_) => return Err(format!("assert \"key\" must be a string: {a}")),
+                };
+                let got = s.snap.get(&k).map(raw_value);
+                if kind == "stored_absent" {
+                    (got.is_none(), format!("stored under {ns}/{:?}: {:?}", a.get("key"), got))
+                } else {
+                    let want = a
+                        .get("value")
+                        .ok_or_else(|| format!("stored_eq needs \"value\": {a}"))?;
+                    (
+                        got.as_ref() == Some(want),
+                        match &got {
+                            Some(g) if g == want => "stored as expected".to_string(),
+                            Some(g) => format!("stored is {g}, expected {want}"),
+                            None => format!("nothing stored, expected {want}"),
+                        },
+                    )
+                }
             }
             other => return Err(format!("unknown assert kind \"{other}\"")),
         };
